@@ -315,6 +315,7 @@ func (t *basicTaskBase) Transition(cmd *executorcmd.ExecutorCommand_Transition) 
 }
 
 func (t *basicTaskBase) Kill() error {
+	_ = t.ensureBasicTaskKilled() // no-op for hooks
 	if t.taskCmd != nil {
 		t.taskCmd = nil
 	}
